@@ -30,16 +30,23 @@ RULES = [
 RULES = [(k, r) for k, r in RULES if r is not None]
 
 
+# variant switches, set by the checks from the regenerated lexer facts (Gen_LexRules.v)
+LONE_BS_ECHO = True     # <STR> has no rule for a single backslash: flex ECHOes it and drops it from the literal
+CR_WS = False           # the white-space rule contains \r
+
+
 class LexFatal(Exception):
     def __init__(self, pos, why):
         Exception.__init__(self, "%s at %d" % (why, pos))
         self.pos, self.why = pos, why
 
 
-def tokenize(text, cr_is_ws=False):
+def tokenize(text, cr_is_ws=None):
     """text: str (latin-1 decoded bytes).  Returns (tokens, echoed, state_at_end) where tokens are
     (kind, value, start, end), kind in comment ws bang under kw num dec hex bin sym key ( ) str qsym;
     state_at_end in INITIAL STR PSYM.  Raises LexFatal for the exit(1) paths."""
+    if cr_is_ws is None:
+        cr_is_ws = CR_WS
     toks, echoed, i, n = [], [], 0, len(text)
     while i < n:
         c = text[i]
@@ -53,8 +60,11 @@ def tokenize(text, cr_is_ws=False):
                     if j + 1 < n and text[j + 1] in '"\\':
                         buf.append(text[j + 1])
                         j += 2
-                    else:
+                    elif LONE_BS_ECHO:
                         echoed.append("\\")      # default rule: ECHO
+                        j += 1
+                    else:
+                        buf.append("\\")
                         j += 1
                 elif d == '"':
                     j += 1
